@@ -1,6 +1,6 @@
 """Child process of C19: one presence combination of the two bindings, fresh interpreter.
 
-usage: python -m vf.props.c19_child <repo> <sgio:0|1> <iscsi:0|1>   -> JSON on stdout
+usage: python -m vf.props.c19_child <repo> <sgio:0|1|2> <iscsi:0|1|2> [order]  -> JSON on stdout   (0 not installed, 1 present, 2 installed but unloadable)
 """
 import importlib
 import json
@@ -34,7 +34,7 @@ def main():
     sys.path.insert(0, repo)
     from vf.sim import install, nodes, registry
     from vf.sim.target import Target
-    install.install(has_sgio, has_iscsi)
+    install.install(int(sys.argv[2]), int(sys.argv[3]))
     IGNORE_PREFIXES.extend([repo + "/", sys.prefix + "/", sys.base_prefix + "/", "/usr/lib/python", os.path.dirname(os.path.dirname(os.path.dirname(__file__))) + "/"])
     sys.addaudithook(_audit)
     results = []       # [kind, case, [ (key, what) ]]
